@@ -15,16 +15,18 @@ Theorem refines_hist c h z l :
   Forall2 (ROut (RP c)) (impl_hist c h z) (spec_hist c h l).
 Proof.
   intros W F HP. unfold impl_hist, spec_hist.
-  apply (sim_run_hist (zstore c) (rstore c) c (R c) (RP c)); auto.
+  apply (sim_run_hist (zstore c) (rstore c) c c EV (R c) (RP c)); auto using hist_valid_rel.
+  - split; [reflexivity|apply Valid_nil].
+  - intros n1 n2 [-> _]. reflexivity.
   - intros; apply sim_begin; auto.
   - intros; apply sim_publish; auto.
-  - intros; apply sim_get; auto.
+  - intros s1 s2 n1 n2 ty cov HR [-> Vn]. apply sim_get; auto.
   - intros s2 n ty cov r. apply r_get_cls.
-  - intros; apply sim_put; auto.
-  - intros; apply sim_del_name; auto.
-  - intros; apply sim_del_rds; auto.
-  - intros; apply sim_exists; auto.
-  - intros; apply sim_node; auto.
+  - intros s1 s2 n1 n2 r HR [-> Vn] Hc. apply sim_put; auto.
+  - intros s1 s2 n1 n2 HR [-> Vn]. apply sim_del_name; auto.
+  - intros s1 s2 n1 n2 ty cov HR [-> Vn]. apply sim_del_rds; auto.
+  - intros s1 s2 n1 n2 HR [-> Vn]. apply sim_exists; auto.
+  - intros s1 s2 n1 n2 HR [-> Vn]. apply sim_node; auto.
   - intros; apply sim_changed; auto.
 Qed.
 
